@@ -8,7 +8,7 @@ import (
 // Cond is one `{ ... }` / `!{ ... }` / named-acl term of an `if` clause.
 type Cond struct {
 	Neg    bool
-	Kind   string // pathid | base | authok | pathbeg | unknown
+	Kind   string // pathid | base | authok | pathbeg | meth | unknown
 	Method string // str beg dir reg bool ...
 	ICase  bool
 	Pats   []string
@@ -68,9 +68,19 @@ func parseConds(toks []string) []Cond {
 			continue
 		}
 		neg := strings.HasPrefix(t, "!")
+		if ms, ok := methACL[strings.TrimPrefix(t, "!")]; ok {
+			// predefined ACLs of HAProxy on the request method
+			conds = append(conds, Cond{Neg: neg, Kind: "meth", Method: "str", Pats: ms, Raw: t})
+			continue
+		}
 		conds = append(conds, Cond{Neg: neg, Kind: "unknown", Raw: t})
 	}
 	return conds
+}
+
+var methACL = map[string][]string{
+	"METH_CONNECT": {"CONNECT"}, "METH_DELETE": {"DELETE"}, "METH_GET": {"GET", "HEAD"}, "METH_HEAD": {"HEAD"},
+	"METH_OPTIONS": {"OPTIONS"}, "METH_POST": {"POST"}, "METH_PUT": {"PUT"}, "METH_TRACE": {"TRACE"},
 }
 
 func parseACL(t []string) Cond {
@@ -87,6 +97,8 @@ func parseACL(t []string) Cond {
 		c.Kind = "authok"
 	case "path_beg":
 		c.Kind, c.Method = "pathbeg", "beg"
+	case "method":
+		c.Kind, c.Method = "meth", "str"
 	default:
 		return c
 	}
@@ -164,6 +176,7 @@ type Request struct {
 	Base   string // lower(host) + "#" + path
 	Path   string
 	PathID string // txn.pathID once the backend was selected
+	Method string // GET when empty
 }
 
 func matchWord(s, pat string, delims string) bool {
@@ -221,12 +234,17 @@ func (c Cond) eval(q Request, authOK bool) (bool, bool) {
 	switch c.Kind {
 	case "authok":
 		v, known = authOK, true
-	case "pathid", "base", "pathbeg":
+	case "pathid", "base", "pathbeg", "meth":
 		s := q.PathID
 		if c.Kind == "base" {
 			s = q.Base
 		} else if c.Kind == "pathbeg" {
 			s = q.Path
+		} else if c.Kind == "meth" {
+			s = q.Method
+			if s == "" {
+				s = "GET"
+			}
 		}
 		known = true
 		for _, p := range c.Pats {
